@@ -39,7 +39,11 @@ def catalog(events, region=None, catalog_id=None, name='obs', **kw):
 
 def gridded_forecast(rates, region, magnitudes, name='fc', start=None, end=None):
     from csep.core.forecasts import GriddedForecast
-    return GriddedForecast(start_time=start, end_time=end, data=numpy.array(rates, dtype=float), region=region,
+    if isinstance(rates, numpy.ndarray) and rates.dtype == numpy.float32:
+        data = rates.copy(order='K')               # single-precision storage is kept as given
+    else:
+        data = numpy.array(rates, dtype=float)
+    return GriddedForecast(start_time=start, end_time=end, data=data, region=region,
                            magnitudes=numpy.array(magnitudes), name=name)
 
 
